@@ -13,6 +13,9 @@
  */
 #ifndef VH_H
 #define VH_H
+#ifndef _GNU_SOURCE
+#define _GNU_SOURCE
+#endif
 #include <stdio.h>
 #include <stdlib.h>
 #include <string.h>
@@ -60,6 +63,7 @@ static int vh_set_add(uint64_t h) {
 }
 
 /* ---------- blocks / cases ---------- */
+static char vh_skip_block[64] = ""; static long vh_skip_index = -1; static int vh_skip_reached = 1;
 static void vh_block_end(void) {
 	if (vh_block[0]) printf("BLOCK %s %s %ld\n", vh_block, vh_capped ? "capped" : "done", vh_block_cases);
 	vh_block[0] = 0; fflush(stdout);
@@ -69,13 +73,20 @@ static int vh_deadline_hit(void) { return vh_deadline_at > 0 && vh_now() > vh_de
 static int vh_block_begin(const char *name) {
 	vh_block_end();
 	if (vh_replay_block && strcmp(vh_replay_block, name) != 0) return 0;
+	if (!vh_skip_reached) { if (strcmp(vh_skip_block, name)) return 0; vh_skip_reached = 1; }
 	if (vh_deadline_hit()) { printf("BLOCK %s skipped 0\n", name); vh_capped = 1; return 0; }
 	snprintf(vh_block, sizeof vh_block, "%s", name); vh_index = -1; vh_block_cases = 0; return 1;
 }
+typedef struct { char block[64]; long index; int reached; } vh_prog_t;
+static vh_prog_t *vh_prog = NULL;          /* shared with the guarding parent: the case being evaluated */
+static int vh_case_timeout = 0;
 static int vh_next(void) {
 	vh_index++;
-	if (vh_replay_block) return vh_index == vh_replay_index;
-	if ((vh_index % vh_nshards) != vh_shard) return 0;
+	if (vh_replay_block) { if (vh_index != vh_replay_index) return 0; }
+	else if ((vh_index % vh_nshards) != vh_shard) return 0;
+	if (vh_skip_block[0] && !strcmp(vh_block, vh_skip_block) && vh_index <= vh_skip_index) return 0;
+	if (vh_prog) { memcpy(vh_prog->block, vh_block, sizeof vh_block); vh_prog->index = vh_index; }
+	if (vh_case_timeout) alarm(vh_case_timeout);
 	vh_block_cases++; vh_cases++;
 	return 1;
 }
@@ -195,5 +206,45 @@ static int vh_fork(int (*fn)(void *), void *ctx, int timeout_s, vh_obs_t *o, voi
 		else { o->kind = 3; snprintf(o->what, sizeof o->what, "signal-%d", o->sig); }
 	} else { o->kind = 0; o->ret = WEXITSTATUS(st); }
 	return o->kind;
+}
+
+/* ---------- guarded execution of a whole driver body ----------
+ * body() runs in a child; if the child dies (sanitizer report, abort, signal, per-case timeout) the case it was evaluating
+ * is reported as a violation `<prefix>:crash:<what>` and a new child resumes right after that case. */
+static void vh_guarded(const char *prefix, void (*body)(void), int case_timeout_s) {
+	vh_prog = (vh_prog_t *)mmap(NULL, sizeof *vh_prog, PROT_READ | PROT_WRITE, MAP_SHARED | MAP_ANONYMOUS, -1, 0);
+	int restarts = 0;
+	for (;;) {
+		memset(vh_prog, 0, sizeof *vh_prog); vh_prog->index = -1;
+		fflush(stdout); int efd = memfd_create("vhgerr", 0);
+		pid_t pid = fork(); if (pid < 0) vh_harness_error("fork");
+		if (pid == 0) { dup2(efd, 2); vh_case_timeout = case_timeout_s; body(); alarm(0); vh_finish(); _exit(0); }
+		int st = 0; while (waitpid(pid, &st, 0) < 0 && errno == EINTR) {}
+		if (WIFEXITED(st) && WEXITSTATUS(st) == 0) { close(efd); break; }
+		if (WIFEXITED(st) && WEXITSTATUS(st) == 2) { close(efd); exit(2); }
+		size_t el; char *err = vh_slurp(efd, &el); close(efd);
+		char what[200] = "?"; const char *p;
+		if ((p = strstr(err, "ERROR: AddressSanitizer: ")) || (p = strstr(err, "WARNING: MemorySanitizer: "))) {
+			const char *q = strstr(p, "Sanitizer: ") + 11; char kind[64]; snprintf(kind, sizeof kind, "%.*s", (int)strcspn(q, " \n"), q);
+			const char *fr = p; char fn1[80] = "";
+			while ((fr = strstr(fr, " in "))) { fr += 4; if (!strncmp(fr, "__", 2) || !strncmp(fr, "mem", 3) || !strncmp(fr, "str", 3) || strstr(fr, "printf") == fr || !strncmp(fr, "vfprintf", 8) || !strncmp(fr, "fprintf", 7)) continue; snprintf(fn1, sizeof fn1, "%.*s", (int)strcspn(fr, " \n"), fr); break; }
+			snprintf(what, sizeof what, "%s@%s", kind, fn1);
+		} else if ((p = strstr(err, "runtime error: "))) { snprintf(what, sizeof what, "ubsan:%.*s", (int)strcspn(p + 15, "\n"), p + 15); for (char *c = what; *c; c++) if (*c == ' ') *c = '_'; }
+		else if (WIFSIGNALED(st) && WTERMSIG(st) == SIGALRM) snprintf(what, sizeof what, "timeout");
+		else if (WIFSIGNALED(st) && WTERMSIG(st) == SIGABRT) { const char *a = strstr(err, "Assertion"); if (a) { snprintf(what, sizeof what, "abort:%.*s", (int)strcspn(a, "\n"), a); for (char *c = what; *c; c++) if (*c == ' ') *c = '_'; } else snprintf(what, sizeof what, "abort"); }
+		else if (WIFSIGNALED(st)) snprintf(what, sizeof what, "signal-%d", WTERMSIG(st));
+		else snprintf(what, sizeof what, "exit-%d", WEXITSTATUS(st));
+		if (vh_prog->index < 0) { printf("HARNESS-ERROR driver died outside any case: %s\n%.600s\n", what, err); exit(2); }
+		char key[300]; snprintf(key, sizeof key, "%s:crash:%s", prefix, what);
+		snprintf(vh_block, sizeof vh_block, "%s", vh_prog->block); vh_index = vh_prog->index;
+		char *tail = err + (el > 900 ? 0 : 0); char esc[700]; size_t k = 0; for (size_t i = 0; tail[i] && k < sizeof esc - 2; i++) { char c = tail[i]; if (c == '"' || c == '\\') c = '\''; if (c == '\n') c = '|'; if ((unsigned char)c < 32) c = ' '; esc[k++] = c; } esc[k] = 0;
+		vh_viol(key, "\"crash\":\"%s\",\"report\":\"%s\"", what, esc);
+		printf("VIOLCOUNT %s\t1\n", key);
+		vh_block[0] = 0; free(err);
+		if (vh_replay_block) break;
+		snprintf(vh_skip_block, sizeof vh_skip_block, "%s", vh_prog->block); vh_skip_index = vh_prog->index; vh_skip_reached = 0;
+		if (++restarts > 60) { printf("BLOCK %s capped 0\n", vh_skip_block); break; }
+	}
+	vh_nkeys = 0; vh_last_sample[0] = 0; /* children have printed their own totals */
 }
 #endif
